@@ -74,7 +74,7 @@ type Contracts struct {
 
 var clauseRe = regexp.MustCompile(`^([a-z_]+)(#[A-Za-z0-9_.\-]+)?((?:\s+@C[0-9]+)*)\s*(.*)$`)
 
-var flagKinds = map[string]bool{"intmode": true, "pure": true, "inline": true, "trusted": true, "external": true, "nopanic": true, "property": true, "bound": true, "opaque": true, "reads": true, "mayPanic": true, "ghostret": true, "unroll": true, "axioms": true}
+var flagKinds = map[string]bool{"intmode": true, "pure": true, "inline": true, "trusted": true, "external": true, "nopanic": true, "property": true, "bound": true, "opaque": true, "reads": true, "mayPanic": true, "ghostret": true, "unroll": true, "axioms": true, "noctx": true, "reveal": true, "frame": true}
 
 func parseContracts(path string) (*Contracts, error) {
 	f, err := os.Open(path)
@@ -134,7 +134,7 @@ func parseContracts(path string) (*Contracts, error) {
 						return nil, fmt.Errorf("%s:%d: bad header %q", path, ln, txt)
 					}
 				}
-			case "spec", "lemma", "functype", "table", "rule":
+			case "spec", "lemma", "functype", "table", "rule", "ghost":
 				cur.Target = strings.TrimSpace(txt[len(cur.Kind):])
 			default:
 				return nil, fmt.Errorf("%s:%d: unknown block kind %q", path, ln, cur.Kind)
@@ -182,7 +182,7 @@ func parseContracts(path string) (*Contracts, error) {
 				return nil, fmt.Errorf("%s:%d: duplicate contract for %s", path, b.Line, id)
 			}
 			cs.byID[id] = b
-		case "spec":
+		case "spec", "ghost":
 			name := b.Target
 			if i := strings.Index(name, "("); i >= 0 {
 				name = name[:i]
